@@ -1162,6 +1162,25 @@ def rule_all_of_merge_is_completed(repo: Repo, rep, rule: str = "R2.22") -> None
                                                      and c2.func.value.attr == "required" for c2 in calls_in(f.node))
         if {"all_of", "_is_circular_ref"} <= txt_attrs and fills and req:
             passes.append((f, c))
+    # the re-merge is not limited to schemas that *hold* a placeholder: `Admin: allOf [User]` holds the real `User`, which was itself incomplete
+    # (it inherits from the placeholder's target) when Admin copied its fields - the pass must look at every allOf schema until nothing changes
+    if passes:
+        from sa.cfg import CFG as _C22, guards as _g22
+
+        f22 = passes[0][0]
+        cfg22 = _C22(f22.node)
+        dom22 = cfg22.dominators()
+        for nd in cfg22.nodes:
+            if nd.kind == "stmt" and not nd.copy and isinstance(nd.ast, (ast.Assign, ast.AugAssign)) and any(
+                    isinstance(t, ast.Attribute) and t.attr == "properties" for t in (nd.ast.targets if isinstance(nd.ast, ast.Assign) else [nd.ast.target])):
+                lim = [g for g, pol in _g22(cfg22, nd.id, dom22) if g.kind == "test" and pol is not None and g.ast is not None and any(
+                    isinstance(x, ast.Attribute) and x.attr in ("_is_circular_ref", "_circular_ref_path") for x in ast.walk(g.ast))]
+                if lim:
+                    rep.violation(rule, sub + " (transitive)", f"{f22.fq}|completion-limited-to-placeholder-holders",
+                                  f"`{norm(lim[0].ast)[:70]}` decides whether a schema is re-merged at all: a schema that inherits from a *real* schema which was itself completed by this "
+                                  "pass (`Admin: allOf [User]`, `User: allOf [Resource]`, `Resource.createdBy -> User`) keeps the incomplete copy it made while parsing - again depending on "
+                                  "the order of components.schemas", f22.loc(lim[0].ast))
+                    return
     if passes:
         rep.ok(rule, sub, f"build_schemas runs `{passes[0][0].qualname}` after every declared schema is complete: placeholders among the allOf members are resolved and their "
                "properties / required names merged", bs.loc(passes[0][1]))
